@@ -45,7 +45,8 @@ pub fn size(max: u32) -> BoxedStrategy<u32> {
 
 pub fn writer(max_bytes: u32, aborts: bool) -> BoxedStrategy<WriterScript> {
     let step = prop_oneof![
-        6 => size(max_bytes).prop_map(WStep::Send),
+        5 => size(max_bytes).prop_map(WStep::Send),
+        2 => size(max_bytes).prop_map(WStep::Write),
         1 => (0u32..30_000).prop_map(WStep::PauseUs),
         1 => Just(WStep::Flush),
     ];
@@ -64,7 +65,7 @@ pub fn writer(max_bytes: u32, aborts: bool) -> BoxedStrategy<WriterScript> {
             // keep the total within the bound
             let mut total = 0u64;
             for s in steps.iter_mut() {
-                if let WStep::Send(n) = s {
+                if let WStep::Send(n) | WStep::Write(n) = s {
                     let room = (max_bytes as u64).saturating_sub(total);
                     if (*n as u64) > room {
                         *n = room as u32;
